@@ -1,6 +1,7 @@
 package rules
 
 import (
+	"tinkverif/consteval"
 	"fmt"
 	"go/token"
 	"regexp"
@@ -359,6 +360,16 @@ func c07Nonce(c *Ctx) {
 		}
 	}
 	r.Check(limit, "C07.nonce", "C07.nonce/generateSegmentNonce/limit", p.FuncPos(g), "segment numbers >= 2^32-1 are not rejected (the 32-bit counter would wrap and nonces repeat)", "segmentNum >= MaxUint32 -> error")
+	// layout by value: folded on a 12-byte nonce with a 7-byte prefix
+	layoutByValue := false
+	if len(g.Params) == 4 {
+		prefix := []byte{0xa1, 0xa2, 0xa3, 0xa4, 0xa5, 0xa6, 0xa7}
+		d1 := layoutCheck(c, "C07.nonce", "C07.nonce/generateSegmentNonce/layout", g, 0, cat(prefix, []byte{0x01, 0x02, 0x03, 0x04, 0x00}),
+			"prefix || be32(counter) || 0x00 (not last)", consteval.C(12), consteval.BytesVal(prefix), consteval.C(0x01020304), consteval.B(false))
+		d2 := d1 && layoutCheck(c, "C07.nonce", "C07.nonce/generateSegmentNonce/layout (last)", g, 0, cat(prefix, []byte{0x01, 0x02, 0x03, 0x04, 0x01}),
+			"prefix || be32(counter) || 0x01 (last)", consteval.C(12), consteval.BytesVal(prefix), consteval.C(0x01020304), consteval.B(true))
+		layoutByValue = d1 && d2
+	}
 	// layout: PutUint32 at absolute offset len(prefix) of the nonce; flag byte = 1 at
 	// len(prefix)+4 under last==true. Offsets are compared as linear terms, so
 	// sub-slices (suffix := nonce[o:o+5]) and n := copy(nonce, prefix) are fine.
@@ -433,11 +444,14 @@ func c07Nonce(c *Ctx) {
 	})
 	if !okCtr {
 		// counter written with four explicit byte stores
-		if off, ok4 := be32ByteStores(cx, g, g.Params[2]); ok4 && off == wantCtr {
+		if off, ok4 := be32ByteStoresAt(cx, g, g.Params[2], func(v ssa.Value) (bounds.Lin, bool) { return absLow(v, 0) }); ok4 && off == wantCtr {
 			okCtr = true
 		}
 	}
-	r.Check(okCtr && okFlag, "C07.nonce", "C07.nonce/generateSegmentNonce/layout", p.FuncPos(g), "nonce is not prefix || be32(counter) at len(prefix) || last flag at len(prefix)+4 (set only when last)", "counter at len(prefix); flag at +4 under last")
+	if !layoutByValue {
+		r.Check(okCtr && okFlag, "C07.nonce", "C07.nonce/generateSegmentNonce/layout", p.FuncPos(g), "nonce is not prefix || be32(counter) at len(prefix) || last flag at len(prefix)+4 (set only when last)", "counter at len(prefix); flag at +4 under last")
+	}
+	_ = func() { r.Check(okCtr && okFlag, "C07.nonce", "C07.nonce/generateSegmentNonce/layout", p.FuncPos(g), "nonce is not prefix || be32(counter) at len(prefix) || last flag at len(prefix)+4 (set only when last)", "counter at len(prefix); flag at +4 under last") }
 	// callers
 	type want struct {
 		typ, method, counter string
